@@ -222,9 +222,18 @@ Print Assumptions C19_real_bias.
 (* the hypotheses are satisfiable and the bounds are not vacuous: 3 distinct values in 4 Adds *)
 Example C19_real_bias_ex :
   let ops := [OAdd 1%Z None; OAdd 2%Z None; OAdd 1%Z None; OAdd 3%Z None] in
-  (3 * (1 - (1 / inject_Z two64) * 4) <= Rrun Z Z.eqb (fun l => l) true 0 2 (init Z) ops (fun o => estimate Z (st_of Z o)))%Q
-  /\ (Rrun Z Z.eqb (fun l => l) true 0 2 (init Z) ops (fun o => estimate Z (st_of Z o)) <= 3)%Q.
-Proof. exact (C19_real_bias Z Z.eqb Z.eqb_spec (fun l => l) (fun l => Permutation_refl l) 0%nat 2 _). Qed.
+  distinct Z Z.eqb ops = 3%nat /\ nadds Z ops = 4%nat /\
+  (inject_Z (Z.of_nat 3) * (1 - (1 / inject_Z two64) * inject_Z (Z.of_nat 4))
+     <= Rrun Z Z.eqb (fun l => l) true 0 2 (init Z) ops (fun o => estimate Z (st_of Z o)))%Q
+  /\ (Rrun Z Z.eqb (fun l => l) true 0 2 (init Z) ops (fun o => estimate Z (st_of Z o)) <= inject_Z (Z.of_nat 3))%Q.
+Proof.
+  intros ops.
+  assert (Hd : distinct Z Z.eqb ops = 3%nat) by reflexivity.
+  assert (Hn : nadds Z ops = 4%nat) by reflexivity.
+  split; [exact Hd|]. split; [exact Hn|].
+  pose proof (C19_real_bias Z Z.eqb Z.eqb_spec (fun l => l) (fun l => Permutation_refl l) 0%nat 2 ops) as H.
+  rewrite Hd, Hn in H. exact H.
+Qed.
 
 (* The deficit is real, so C19_unbiased does NOT hold of the real coin exactly: size 1, Add 1,
    Add 2 -- the second value is buffered with probability (2^63 - 1) / 2^64 at weight 2, so its
